@@ -12,6 +12,7 @@ use dryoc::classic::crypto_secretbox::*;
 use dryoc::classic::crypto_secretstream_xchacha20poly1305 as ss;
 use dryoc::classic::crypto_sign::{crypto_sign_open, crypto_sign_verify_detached};
 
+use crate::polymath;
 use crate::so;
 use crate::util::*;
 
@@ -212,7 +213,149 @@ fn t_pwhash_from_string(i: &Input) -> Outcome {
     Ok(())
 }
 
+// ---------------------------------------------------------------------
+// Constructed inputs: the Poly1305 accumulator ends on p-2 .. 2^130+1 after the last block (in particular in
+// [p, 2^130), where the final conditional subtraction of p is taken).  Random data reaches this with probability
+// ~2^-128; whoever knows the one-time key (the sender of a box; any sender of a sealed box with a small-order
+// ephemeral key) can aim at it.  The functions must return Ok or Err (a panic is turned into a finding by the
+// runner) and the decision must be libsodium's.
+// ---------------------------------------------------------------------
+
+/// k (one-time key), x (message)
+fn t_mac_verify_poly1305_edge(i: &Input) -> Outcome {
+    use dryoc::onetimeauth::OnetimeAuth;
+    let (k, x) = (i.arr::<32>("k"), i.get("x"));
+    let tag = so::onetimeauth(x, &k);
+    if !so::onetimeauth_verify(&tag, x, &k) {
+        panic!("{} libsodium rejects its own one-time MAC", HARNESS);
+    }
+    let mut bad = tag;
+    bad[0] ^= 1;
+    for (name, mac) in [("authentic", tag), ("forged", bad)] {
+        let want = so::onetimeauth_verify(&mac, x, &k);
+        verdict(
+            &format!("crypto_onetimeauth_verify ({} MAC)", name),
+            want,
+            crypto_onetimeauth_verify(&mac, x, &k).is_ok(),
+        )?;
+        verdict(
+            &format!("OnetimeAuth::compute_and_verify ({} MAC)", name),
+            want,
+            OnetimeAuth::compute_and_verify(&mac, k, &x.to_vec()).is_ok(),
+        )?;
+        let cut = x.len().min(7);
+        let mut st = OnetimeAuth::new(k);
+        st.update(&x[..cut].to_vec());
+        st.update(&x[cut..].to_vec());
+        verdict(
+            &format!("OnetimeAuth::new/update/update/verify ({} MAC)", name),
+            want,
+            st.verify(&mac).is_ok(),
+        )?;
+    }
+    Ok(())
+}
+
+/// k, n, c = tag || body as presented
+fn t_secretbox_open_poly1305_edge(i: &Input) -> Outcome {
+    use dryoc::dryocsecretbox::{DryocSecretBox, Key, Mac, Nonce, VecBox};
+    let (k, n, c) = (i.arr::<32>("k"), i.arr::<24>("n"), i.get("c"));
+    if c.len() < 16 {
+        panic!("{} c must hold a tag", HARNESS);
+    }
+    let oracle = so::secretbox_open_easy(c, &n, &k);
+    let accept = oracle.is_some();
+    let mlen = c.len() - 16;
+    let mac: [u8; 16] = c[..16].try_into().unwrap();
+
+    let mut out = vec![0u8; mlen];
+    let r = crypto_secretbox_open_easy(&mut out, c, &n, &k);
+    verdict("crypto_secretbox_open_easy", accept, r.is_ok())?;
+    if let Some(p) = &oracle {
+        eq("crypto_secretbox_open_easy plaintext", p, &out)?;
+    }
+    let mut out = vec![0u8; mlen];
+    let r = crypto_secretbox_open_detached(&mut out, &mac, &c[16..], &n, &k);
+    verdict("crypto_secretbox_open_detached", accept, r.is_ok())?;
+    let mut data = c.to_vec();
+    let r = crypto_secretbox_open_easy_inplace(&mut data, &n, &k);
+    verdict("crypto_secretbox_open_easy_inplace", accept, r.is_ok())?;
+
+    let r = VecBox::from_bytes(c).and_then(|b| b.decrypt_to_vec(&Nonce::from(n), &Key::from(k)));
+    verdict("DryocSecretBox::from_bytes + decrypt_to_vec", accept, r.is_ok())?;
+    if let (Some(p), Ok(q)) = (&oracle, &r) {
+        eq("DryocSecretBox::decrypt_to_vec plaintext", p, q)?;
+    }
+    let b: DryocSecretBox<Mac, Vec<u8>> = must_ok(DryocSecretBox::from_bytes(c), "DryocSecretBox::from_bytes")?;
+    let r: Result<Vec<u8>, _> = b.decrypt(&n, &k);
+    verdict("DryocSecretBox::decrypt", accept, r.is_ok())
+}
+
+/// pk (sender public), sk (recipient secret), n, c = tag || body as presented
+fn t_box_open_poly1305_edge(i: &Input) -> Outcome {
+    use dryoc::dryocbox::{Nonce, PublicKey, SecretKey, VecBox};
+    let (pk, sk, n, c) = (i.arr::<32>("pk"), i.arr::<32>("sk"), i.arr::<24>("n"), i.get("c"));
+    if c.len() < 16 {
+        panic!("{} c must hold a tag", HARNESS);
+    }
+    let oracle = so::box_open_easy(c, &n, &pk, &sk);
+    let accept = oracle.is_some();
+    let mlen = c.len() - 16;
+    let mac: [u8; 16] = c[..16].try_into().unwrap();
+
+    let mut out = vec![0u8; mlen];
+    let r = crypto_box_open_easy(&mut out, c, &n, &pk, &sk);
+    verdict("crypto_box_open_easy", accept, r.is_ok())?;
+    if let Some(p) = &oracle {
+        eq("crypto_box_open_easy plaintext", p, &out)?;
+    }
+    let mut out = vec![0u8; mlen];
+    let r = crypto_box_open_detached(&mut out, &mac, &c[16..], &n, &pk, &sk);
+    verdict("crypto_box_open_detached", accept, r.is_ok())?;
+    let mut data = c.to_vec();
+    let r = crypto_box_open_easy_inplace(&mut data, &n, &pk, &sk);
+    verdict("crypto_box_open_easy_inplace", accept, r.is_ok())?;
+    if let Some(key) = so::box_beforenm(&pk, &sk) {
+        let mut out = vec![0u8; mlen];
+        let r = crypto_box_open_detached_afternm(&mut out, &mac, &c[16..], &n, &key);
+        verdict("crypto_box_open_detached_afternm", accept, r.is_ok())?;
+    }
+    let r = VecBox::from_bytes(c).and_then(|b| b.decrypt_to_vec(&Nonce::from(n), &PublicKey::from(pk), &SecretKey::from(sk)));
+    verdict("DryocBox::from_bytes + decrypt_to_vec", accept, r.is_ok())
+}
+
+/// sk (recipient secret key), c = epk || tag || body as presented
+fn t_seal_open_poly1305_edge(i: &Input) -> Outcome {
+    use dryoc::dryocbox::{KeyPair, PublicKey, SecretKey, VecBox};
+    let (sk, c) = (i.arr::<32>("sk"), i.get("c"));
+    if c.len() < 48 {
+        panic!("{} c must hold an ephemeral key and a tag", HARNESS);
+    }
+    let pk = so::scalarmult_base(&sk);
+    let oracle = so::box_seal_open(c, &pk, &sk);
+    let mut out = vec![0u8; c.len() - 48];
+    let r = crypto_box_seal_open(&mut out, c, &pk, &sk); // a panic here is the finding
+    let kp = KeyPair {
+        public_key: PublicKey::from(pk),
+        secret_key: SecretKey::from(sk),
+    };
+    let r2 = VecBox::from_sealed_bytes(c).and_then(|b| b.unseal_to_vec(&kp));
+    // The decision is compared whenever libsodium opens the box.  With a small-order ephemeral key libsodium refuses
+    // the key agreement itself (crypto_box_beforenm returns -1); dryoc's crypto_box_beforenm has no error path
+    // (see curve.rs, `beforenm`), so for those boxes only totality is checked.
+    if let Some(p) = &oracle {
+        verdict("crypto_box_seal_open", true, r.is_ok())?;
+        eq("crypto_box_seal_open plaintext", p, &out)?;
+        verdict("DryocBox::from_sealed_bytes + unseal_to_vec", true, r2.is_ok())?;
+    }
+    Ok(())
+}
+
 pub const C04: Registry = &[
+    ("mac_verify_poly1305_edge", t_mac_verify_poly1305_edge),
+    ("secretbox_open_poly1305_edge", t_secretbox_open_poly1305_edge),
+    ("box_open_poly1305_edge", t_box_open_poly1305_edge),
+    ("seal_open_poly1305_edge", t_seal_open_poly1305_edge),
     ("secretbox_open_easy", t_secretbox_open_easy),
     ("box_open_easy", t_box_open_easy),
     ("seal_open", t_seal_open),
@@ -331,6 +474,97 @@ fn pwhash_strings(rng: &mut Rng, thorough: bool) -> Vec<String> {
     v
 }
 
+/// Messages for the one-time key `polykey` whose final accumulator is p-2 .. 2^130+1 (see polymath.rs).
+fn poly1305_edge_messages(rng: &mut Rng, polykey: &[u8; 32], thorough: bool) -> Vec<Vec<u8>> {
+    let mut out = Vec::new();
+    for (off, _) in polymath::FINAL_TARGETS {
+        let shapes: &[(usize, usize)] = if thorough { &[(0, 16), (1, 16), (3, 16), (6, 16), (1, 15)] } else { &[(1, 16), (4, 16)] };
+        for (nprefix, last_len) in shapes {
+            if let Some(m) = polymath::message_with_final_accumulator(rng, polykey, *off, *nprefix, *last_len) {
+                out.push(m);
+            }
+        }
+    }
+    out
+}
+
+/// tag || body, and the same with one bit of the tag / of the body flipped
+fn edge_box_variants(polykey: &[u8; 32], body: &[u8]) -> Vec<Vec<u8>> {
+    let tag = so::onetimeauth(body, polykey);
+    let good = [&tag[..], body].concat();
+    let mut bad_tag = good.clone();
+    bad_tag[3] ^= 0x10;
+    let mut v = vec![good.clone(), bad_tag];
+    if !body.is_empty() {
+        // (this moves the accumulator away from the edge again; kept as the plain tampered-body class)
+        let mut bad_body = good;
+        let last = bad_body.len() - 1;
+        bad_body[last] ^= 0x01;
+        v.push(bad_body);
+    }
+    v
+}
+
+fn c04_poly1305_edges(ctx: &mut Ctx) -> Search {
+    let t = ctx.thorough;
+    // --- one-time MAC verification: random keys, and the key class r = 1 (accumulator = plain sum of the blocks:
+    // two all-0xff blocks give h = 2^130 - 2)
+    let mut keys: Vec<[u8; 32]> = (0..if t { 12 } else { 3 }).map(|_| ctx.rng.arr::<32>()).collect();
+    let mut r1 = [0u8; 32];
+    r1[0] = 1;
+    ctx.rng.fill(&mut r1[16..]);
+    keys.push(r1);
+    ctx.run("mac_verify_poly1305_edge", Input::new().b("k", &r1).b("x", &[0xffu8; 32]))?;
+    ctx.run("mac_verify_poly1305_edge", Input::new().b("k", &r1).b("x", &[0xffu8; 16]))?;
+    for k in &keys {
+        for m in poly1305_edge_messages(&mut ctx.rng, k, t) {
+            ctx.run("mac_verify_poly1305_edge", Input::new().b("k", k).b("x", &m))?;
+        }
+    }
+    // --- secret box / box / sealed box: the one-time key is the first 32 bytes of the XSalsa20 keystream
+    for _ in 0..(if t { 8 } else { 2 }) {
+        let (k, n) = (ctx.rng.arr::<32>(), ctx.rng.arr::<24>());
+        let polykey: [u8; 32] = so::stream_xsalsa20(32, &n, &k)[..32].try_into().unwrap();
+        for body in poly1305_edge_messages(&mut ctx.rng, &polykey, t) {
+            for c in edge_box_variants(&polykey, &body) {
+                ctx.run("secretbox_open_poly1305_edge", Input::new().b("k", &k).b("n", &n).b("c", &c))?;
+            }
+        }
+
+        let (ska, skb) = (ctx.rng.arr::<32>(), ctx.rng.arr::<32>());
+        let pka = so::scalarmult_base(&ska);
+        let shared = match so::box_beforenm(&pka, &skb) {
+            Some(s) => s,
+            None => continue,
+        };
+        let polykey: [u8; 32] = so::stream_xsalsa20(32, &n, &shared)[..32].try_into().unwrap();
+        for body in poly1305_edge_messages(&mut ctx.rng, &polykey, t) {
+            for c in edge_box_variants(&polykey, &body) {
+                ctx.run("box_open_poly1305_edge", Input::new().b("pk", &pka).b("sk", &skb).b("n", &n).b("c", &c))?;
+            }
+        }
+
+        // sealed box from an anonymous sender that uses a small-order ephemeral key (all-zero here): X25519 gives
+        // the all-zero shared secret for every recipient, so the box key HSalsa20(0^32; 0^16) is a public constant
+        let rsk = ctx.rng.arr::<32>();
+        let rpk = so::scalarmult_base(&rsk);
+        let epk = [0u8; 32];
+        let key = so::hsalsa20(&[0u8; 16], &[0u8; 32], None);
+        let nonce: [u8; 24] = so::generichash(24, &[&epk[..], &rpk[..]].concat(), &[])
+            .expect("generichash(24)")
+            .try_into()
+            .unwrap();
+        let polykey: [u8; 32] = so::stream_xsalsa20(32, &nonce, &key)[..32].try_into().unwrap();
+        for body in poly1305_edge_messages(&mut ctx.rng, &polykey, t) {
+            for c in edge_box_variants(&polykey, &body) {
+                let sealed = [&epk[..], &c[..]].concat();
+                ctx.run("seal_open_poly1305_edge", Input::new().b("sk", &rsk).b("c", &sealed))?;
+            }
+        }
+    }
+    Ok(())
+}
+
 pub fn c04(ctx: &mut Ctx) -> Search {
     let t = ctx.thorough;
     let maxlen = if t { 200 } else { 100 };
@@ -435,5 +669,7 @@ pub fn c04(ctx: &mut Ctx) -> Search {
             ctx.run(case, Input::new().b("s", s.as_bytes()))?;
         }
     }
-    Ok(())
+
+    // constructed inputs: Poly1305 accumulator on its edge values
+    c04_poly1305_edges(ctx)
 }
